@@ -435,6 +435,8 @@ class Gen:
     """split a root signal into disjoint target parts"""
     rng = self.rng
     w = twidth(self.design, t)
+    if not isinstance(t, int) and not self.k.get("struct_split", True):
+      return [self.root_ref(path, t)]
     if not isinstance(t, int):
       out = []
       for fn, fw in self.design["types"][t[1]]:
@@ -482,6 +484,8 @@ class Gen:
       r = self.read_ref(path, t, want=w)
       if r is not None:
         return ["rd", r]
+    if self.k.get("no_adapt"):
+      return ["c", rng.getrandbits(w), w]
     # adapt another width
     for (path, t) in srcs[:6]:
       r = self.read_ref(path, t)
@@ -499,6 +503,14 @@ class Gen:
     return ["c", v, w]
 
   def expr(self, w, srcs, depth):
+    e = self._expr(w, srcs, depth)
+    if self.k.get("avoid_const_ops") and e[0] != "c" and not expr_refs(e, []):
+      # a composite expression made of constants only: RTLIR folds it to a minimal-width constant and then rejects
+      # the block (outside what the translation properties quantify over) -> use a plain leaf instead
+      return self.leaf(w, srcs) if srcs else ["c", ev(e, None) & mask(w), w]
+    return e
+
+  def _expr(self, w, srcs, depth):
     rng = self.rng
     if depth <= 0 or not srcs or rng.random() < 0.25:
       return self.leaf(w, srcs) if srcs and rng.random() < 0.85 else self.const(w, implicit_ok=False)
@@ -545,6 +557,12 @@ class Gen:
     return e
 
   def cond(self, srcs, depth):
+    e = self._cond(srcs, depth)
+    if self.k.get("avoid_const_ops") and not expr_refs(e, []):
+      return self.leaf(1, srcs) if srcs else ["c", ev(e, None) & 1, 1]
+    return e
+
+  def _cond(self, srcs, depth):
     rng = self.rng
     r = rng.random()
     w = rng.choice(SMALLW + [32])
@@ -575,6 +593,8 @@ class Gen:
     nid = [0]
     def mk(kind, prefix):
       t = self.sig_type()
+      if kind == "Wire" and not isinstance(t, int) and not k.get("struct_wires", True):
+        t = twidth(d, t)
       lst = rng.randrange(2, 4) if (rng.random() < k["p_list"] and isinstance(t, int)) else None
       sg = {"name": f"{prefix}{nid[0]}", "kind": kind, "type": t, "list": lst}; nid[0] += 1
       cls["signals"].append(sg)
